@@ -84,6 +84,7 @@ def plan(tier):
             units += [('terms', tier, sort, n, k, sh) for k in range(sh)]
     units += [('matrix', tier, k, 32) for k in range(32)]
     units += [('c08family', tier, k, 16) for k in range(16)]
+    units += [('assoc', tier, k, 8) for k in range(8)]
     for n in range(1, 6 if tier == 'quick' else 7):
         sh = 1 if n <= 4 else NSHARD
         units += [('boolfrag', tier, n, k, sh) for k in range(sh)]
@@ -338,6 +339,36 @@ def run(unit):
             if i % shards != k:
                 continue
             process_term(t, 'B' if c08._is_bool(t) else 'N', r, i)
+    elif what == 'assoc':
+        # re-association meets the unit / absorbing / sign rules: every bracketing of four operands under + and * (also
+        # mixed, also with literals inside), combined with a literal -1, 0, 1 or 2 on either side under * + - /, bare,
+        # negated, and inside a comparison - 7 to 11 nodes, beyond the node bound of the term universe
+        from hplmc.universe import num, this_field as tf
+
+        _, _, k, shards = unit
+        x, y, z, w = tf('x'), tf('y'), tf('z'), tf('w')
+
+        def B(o, a, b_):
+            return ('bin', o, a, b_)
+
+        inners = []
+        for o1 in ('+', '*'):
+            for o2 in ('+', '*', '-'):
+                for (a, b_, c, d) in ((x, y, z, w), (x, num(1), y, num(2)), (num(3), x, y, x)):
+                    inners += [B(o1, B(o2, a, b_), B(o2, c, d)), B(o1, a, B(o1, b_, B(o2, c, d))), B(o1, B(o1, B(o2, a, b_), c), d), B(o2, B(o1, a, b_), B(o1, c, d)), B(o1, a, B(o2, B(o1, b_, c), d))]
+        lits = [('un', '-', num(1)), num(0), num(1), num(2)]
+        terms = []
+        for inner in inners:
+            for lit in lits:
+                for o in ('*', '+', '-', '/'):
+                    terms += [B(o, inner, lit), B(o, lit, inner)]
+            terms.append(('un', '-', inner))
+        i = 0
+        for t in terms:
+            for wrapped, sort in ((t, 'N'), (B('<', t, num(0)), 'B'), (B('=', ('un', '-', t), tf('v')), 'B')):
+                i += 1
+                if i % shards == k:
+                    process_term(wrapped, sort, r, i)
     elif what == 'matrix':
         _, _, k, shards = unit
         for i, t in enumerate(function_matrix()):
